@@ -209,6 +209,11 @@ impl CompilerAction {
 
         output_serializer.serialize(&program, &mut sink)
             .expect("Cannot serialize program to output.");
+
+        // The sink buffers: what is still in the buffer must reach the output while a failure
+        // can still be reported, not when the sink is dropped and errors are ignored.
+        sink.flush()
+            .expect("Cannot write program to output.");
     }
 
     pub fn selected_input(&self) -> Result<NamedSource> {
@@ -252,6 +257,9 @@ impl ParserAction {
             .expect("Cannot serialize AST");
 
         write!(sink, "{}", result)
+            .expect("Cannot write to output");
+
+        sink.flush()
             .expect("Cannot write to output");
     }
 
